@@ -133,6 +133,31 @@ def job(args):
                 ('newtonCooling', lambda bf: w.interp.call_function(cb.methods['newtonCooling'], [bf, newv, newv, newv], self_obj=bf)),
                 ('a[:] slice assignment', lambda bf: w.interp.store_subscript(w.interp.get_attr(bf, 'a'), (F_sl(),), newv, None)),
                 ('c[...] slice assignment', lambda bf: w.interp.store_subscript(w.interp.get_attr(bf, 'c'), (F_sl(),), newv, None))]
+    # the same edits and the remaining forms of the edit alphabet as *user-level statements* run by the interpreter (so that
+    # python's own protocol applies: `f.c += v` is  tmp = f.c ; tmp.__iadd__(v) [in place, no __setitem__] ; f.c = tmp [setter,
+    # handed the very same array]); array-valued right-hand sides in the coefficient's own shape and, on left/right faces,
+    # in the shape without the leading unit axis (numpy broadcasts it)
+    def snip(src, coef='c'):
+        def run(bf):
+            shp = tuple(snap(bf.attrs['_' + coef]).shape)
+            # `arr`: the coefficient's own shape; `flat`: the same values with the leading unit axis dropped, or - when there is
+            # none - with one added (numpy's assignment broadcasting accepts both)
+            alt = shp[1:] if (len(shp) > 1 and (shp[0] - 1).is_zero()) else (ONE,) + shp
+            env = dict(f=bf, v=newv, arr=Box(Arr(shp, lambda idx: Rat.atom(('newarr',) + tuple(idx)))),
+                       flat=Box(Arr(alt, lambda idx: Rat.atom(('newarr',) + tuple(idx)))))
+            w.interp.run_snippet(src, env)
+        return run
+    for coef in 'abc':
+        for form in ('f.{c} = v', 'f.{c}[:] = v', 'f.{c}[...] = v', 'f.{c} += v', 'f.{c} -= v', 'f.{c} *= v', 'f.{c} /= v', 'f.{c}[:] += v',
+                     'f.{c}[:] *= v', 'f.{c} = arr', 'f.{c}[:] = arr', 'f.{c} += arr', 'f.{c} = flat', 'f.{c} = f.{c} + v', 'f.{c} = 2 * f.{c}',
+                     'x = f.{c}\nx[:] = v', 'x = f.{c}\nx[0] = v', 'f.{c}[0] = v', 'f.{c}[-1] += v'):
+            if tier == 'quick' and coef != 'c' and form not in ('f.{c} += v', 'f.{c} = arr', 'f.{c} = flat', 'f.{c}[:] *= v'):
+                continue
+            src = form.format(c=coef)
+            mutators.append((f"stmt[{src.replace(chr(10), '; ')}]", snip(src, coef)))
+    for src in ('f.periodic = True', 'f.periodic = not f.periodic', 'f.fixedValue(v)', 'f.fixedValue(arr)', 'f.fixedGradient(v)', 'f.fixedGradient(arr)',
+                'f.newtonCooling(v, v, v)', 'f.defaultNoFlux()'):
+        mutators.append((f"stmt[{src}]", snip(src)))
     faces = FACES[:2 * d]
     for mname, fn in mutators:
         for face in faces:
